@@ -562,6 +562,30 @@ pub fn apply_plan(plan: &mut Plan, options: &ApplyOptions) -> Result<()> {
 
     // Note: Backup system uses diffy patches, not file backups
 
+    // Never overwrite: refuse, before anything is changed, when a rename destination already
+    // exists on disk (a plain rename would silently replace it and that data is in no backup).
+    // A case-only rename on a case-insensitive filesystem, where both names are the same file,
+    // is the one legitimate exception.
+    for rename in &plan.paths {
+        if rename.new_path.as_os_str().is_empty() || rename.new_path == rename.path {
+            continue;
+        }
+        let case_only = rename.path.to_string_lossy().to_lowercase()
+            == rename.new_path.to_string_lossy().to_lowercase();
+        let same_file = case_only
+            && matches!(
+                (fs::canonicalize(&rename.path), fs::canonicalize(&rename.new_path)),
+                (Ok(a), Ok(b)) if a == b
+            );
+        if !same_file && fs::symlink_metadata(&rename.new_path).is_ok() {
+            return Err(anyhow!(
+                "Refusing to rename {} to {}: destination already exists",
+                rename.path.display(),
+                rename.new_path.display()
+            ));
+        }
+    }
+
     // STEP 1: Store original content BEFORE any changes for diff generation
     let mut original_contents: HashMap<PathBuf, String> = HashMap::new();
     if options.create_backups {
